@@ -14,6 +14,13 @@ SmallCases == {[rot |-> "cert_block_21", keys |-> ks, encs |-> [i \in 1..Len(ks)
               \cup {[rot |-> "srk_table_hab", keys |-> ks, encs |-> [i \in 1..Len(ks) |-> e], path |-> "rot", used |-> 0] :
                  ks \in Menu1 \cup {<<K("p521", 1), K("p521", 2)>>}, e \in {Enc("path", "ca.der"), Enc("obj", "crt")}}
 DoCompute == \E c \in SmallCases : Legal(c) /\ Compute(c)
+\* a small world of devices: one family whose RoT type CHANGED with a silicon revision ("latest" = the newer one), one with a single
+\* type, one whose "latest" is not the last revision listed
+MCDevices == <<[fam |-> "famA", revs |-> <<"a0", "b0">>, rots |-> <<"cert_block_21", "srk_table_hab">>, latest |-> "b0", pfr |-> FALSE, dc |-> TRUE],
+               [fam |-> "famB", revs |-> <<"a0", "a1">>, rots |-> <<"cert_block_21", "cert_block_21">>, latest |-> "a0", pfr |-> TRUE, dc |-> FALSE],
+               [fam |-> "famC", revs |-> <<"a0">>, rots |-> <<"srk_table_hab">>, latest |-> "a0", pfr |-> FALSE, dc |-> FALSE]>>
+DoComputeFor == \E i \in 1..Len(Devices) : \E rev \in RevNames(Devices[i]) : \E c \in SmallCases :
+                   \E p \in {"rot", "cli", "dc", "rot_table"} : ComputeFor(Devices[i].fam, rev, [c EXCEPT !.path = p, !.used = IF UsesUsed(p) THEN 1 ELSE 0])
 DoWriteFile == \E f \in {1, 2} : \E k \in {K("p256", 1), K("p256", 5)} : \E e \in {Enc("path", "pub.pem"), Enc("path", "ca.der")} : WriteFile(f, k, e)
 DoReadByPath == \E rot \in {"cert_block_21", "srk_table_hab"} : \E files \in {<<1>>, <<1, 2>>, <<2, 1>>} : \E p \in {"rkht", "cli", "dc", "rot"} :
                    \E u \in {0, 1} : ReadByPath(rot, files, p, u)
@@ -25,6 +32,7 @@ DoSetConstraints == \E c \in {0, 1} : SetConstraints(c)
 DoBuild1 == \E ks \in Menu1 : \E used \in 1..Len(ks) : \E img \in {0, 4660} : Build1(ks, used, img, 3)
 DoSetImageLength == \E n \in {2048} : SetImageLength(n)
 LCompute == lane = "compute" /\ DoCompute /\ UNCHANGED lane
+LComputeFor == lane = "compute" /\ DoComputeFor /\ UNCHANGED lane
 LWriteFile == lane = "files" /\ DoWriteFile /\ UNCHANGED lane
 LReadByPath == lane = "files" /\ DoReadByPath /\ UNCHANGED lane
 LBuild21 == lane = "cb21" /\ DoBuild21 /\ UNCHANGED lane
@@ -36,11 +44,17 @@ LBuild1 == lane = "cb1" /\ DoBuild1 /\ UNCHANGED lane
 LExport1 == lane = "cb1" /\ Export1 /\ UNCHANGED lane
 LParse1 == lane = "cb1" /\ Parse1 /\ UNCHANGED lane
 LSetImageLength == lane = "cb1" /\ DoSetImageLength /\ UNCHANGED lane
-Next == \/ LCompute \/ LWriteFile \/ LReadByPath \/ LBuild21 \/ LExport21 \/ LParse21 \/ LSetUserData \/ LSetConstraints
+Next == \/ LCompute \/ LComputeFor \/ LWriteFile \/ LReadByPath \/ LBuild21 \/ LExport21 \/ LParse21 \/ LSetUserData \/ LSetConstraints
         \/ LBuild1 \/ LExport1 \/ LParse1 \/ LSetImageLength
 MCInit == Init /\ lane \in {"compute", "files", "cb21", "cb1"}
 Spec == MCInit /\ [][Next]_<<vars, lane>>
 Bounded == obj.ud.v <= 2 /\ TLCGet("level") <= (CASE lane = "files" -> 4 [] lane = "compute" -> 2 [] OTHER -> 6)
 \* the value a block reports never changes along a history (only Build chooses keys)
 RkthStable == [][obj.kind = obj'.kind /\ obj.kind # "none" /\ act'.a \notin {"Build21", "Build1"} => obj'.keys = obj.keys]_<<vars, lane>>
+\* the revision is not decoration: in this world the two revisions of famA yield DIFFERENT values for the same key list, and the name
+\* "latest" yields the value of the revision it stands for
+RevisionMatters == act.a = "ComputeFor" =>
+   \A r2 \in RevNames(Dev(act.fam)) :
+      LET c2 == [act.c EXCEPT !.rot = RotOf(act.fam, r2)] IN
+      Legal(c2) => ((DocCase(c2) = act.term) <=> (RotOf(act.fam, r2) = RotOf(act.fam, act.rev)))
 =============================================================================
